@@ -375,6 +375,9 @@ def build_gt(cfg):
         g.pc_ind = np.zeros((nt, nloc_f), dtype=np.int64)
         for t in range(nt):
             g.pc_ind[t] = rs.permutation(nc)[:nloc_f]
+        if cfg.get('feat_no_ind'):
+            # no column table: column j of the store is channel j
+            g.pc_ind = np.tile(np.arange(nloc_f), (nt, 1))
         if p['feature_rows']:
             k = rs.randint(2, ns + 1)
             if cfg.get('feat_rows_complete'):
@@ -481,6 +484,8 @@ def apply_curation(clusters, stemplates, ops):
         k = op['k']
         ids = np.unique(sc)
         new = int(sc.max()) + 1 + int(op.get('gap', 0))
+        if op.get('far'):
+            new = max(new, int(op['far']))    # an id far beyond the current ones
         if k == 'merge':
             a = ids[op['a'] % len(ids)]
             b = ids[op['b'] % len(ids)]
@@ -575,8 +580,10 @@ def write_dataset(cfg, g, d):
     save(_name(cfg, 'stemplates'), _vec(cfg, 'stemplates', g.stemplates.astype(dts['ids'])))
     if p['sclusters']:
         sc = g.sclusters
-        save(_name(cfg, 'sclusters'), _vec(cfg, 'sclusters', sc.astype(
-            'int32' if dts['ids'] == 'uint16' else dts['ids'])))
+        scdt = 'int32' if dts['ids'] == 'uint16' else dts['ids']
+        if dts.get('sclusters') and int(sc.max()) <= 120:
+            scdt = dts['sclusters']      # a sorter that stores the assignments in 8 bits
+        save(_name(cfg, 'sclusters'), _vec(cfg, 'sclusters', sc.astype(scdt)))
     if p['amps']:
         save(_name(cfg, 'amps'), _vec(cfg, 'amps', g.amps.astype(dts.get('amps', 'float64'))))
     save(_name(cfg, 'chmap'), _vec(cfg, 'chmap', g.chmap.astype(dts['chmap'])))
@@ -597,7 +604,8 @@ def write_dataset(cfg, g, d):
         save('similar_templates.npy', g.similar.astype('float32') if cfg['seed'] % 2 else g.similar)
     if p['features']:
         save('pc_features.npy', g.pc_features)
-        save('pc_feature_ind.npy', g.pc_ind.astype(dts['find']))
+        if not cfg.get('feat_no_ind'):
+            save('pc_feature_ind.npy', g.pc_ind.astype(dts['find']))
         if g.feat_rows is not None:
             save('pc_feature_spike_ids.npy', g.feat_rows.astype('int64'))
     if p['tfeatures']:
@@ -652,7 +660,8 @@ def write_dataset(cfg, g, d):
     elif g.raw is not None:
         r = cfg['raw']
         n = g.raw.shape[0]
-        cuts = [n] if r['n_files'] == 1 else [n // 2, n - n // 2]
+        # (a part with no sample at all is not a recording: a one-sample recording stays whole)
+        cuts = [n] if r['n_files'] == 1 or n < 2 else [n // 2, n - n // 2]
         i = 0
         for k, m in enumerate(cuts):
             # (the listed order need not be the lexicographic order of the names)
@@ -677,6 +686,8 @@ def write_dataset(cfg, g, d):
         lines.append('dat_path = %r' % 'recording_moved_away.dat')
     elif not dat_paths:
         lines.append('dat_path = []')
+    elif cfg.get('dat_path_tuple'):
+        lines.append('dat_path = %r' % (tuple(dat_paths),))
     elif len(dat_paths) == 1 and cfg['seed'] % 3:
         lines.append('dat_path = %r' % dat_paths[0])
     else:
